@@ -220,4 +220,4 @@ def _cases(draw, large=False):
 
 
 def stages(tier):
-    return [Hyp('random', _cases, 5000, 250000), Hyp('random-large', lambda: _cases(large=True), 200, 10000)]
+    return [Hyp('random', _cases, 5000, 150000), Hyp('random-large', lambda: _cases(large=True), 200, 10000)]
